@@ -118,6 +118,13 @@ def run_unit(unit) -> UnitResult:
                 except Exception as e:  # constructor refused the limit etc. -- C03's business
                     r.count("method_unavailable")
                     continue
+                foreign = [(e, c) for e, c in errors if not is_library_error(e)]
+                if foreign:
+                    e, c = foreign[0]
+                    r.add_violation(Violation(PROP, f"create[{method}]", "decision-path-raises", {"method": method, "exc": type(e).__name__},
+                                              dict(w, method=method, choices=list(c)),
+                                              f"{spec['name']} d={d} {method}: {len(foreign)} of the decision paths die with {exc_brief(e)} "
+                                              f"instead of producing a member of L(G,{d})"))
                 if trunc:
                     r.count("decision_tree_not_exhausted")
                     r.truncated = True
@@ -145,7 +152,11 @@ def run_unit(unit) -> UnitResult:
                                                   f"{spec['name']} d={d} grow: {len(missing)} of {len(L)} valid programs are unreachable, e.g. {R.show(t)[:200]}"))
                 if method == "full":
                     F = set(R.full_members(lang, d))
-                    if got != F:
+                    if not F:
+                        # no program has all its branches ending at depth d (e.g. d lies between two achievable full
+                        # depths): the clause says nothing, whatever full creation returns must just be in L(G,d)
+                        r.count("full_clause_vacuous_at_this_depth")
+                    elif got != F:
                         extra = sorted(got - F, key=repr)[:1]
                         miss = sorted(F - got, key=repr)[:1]
                         r.add_violation(Violation(PROP, "create[full]", "full-set-differs",
